@@ -2,7 +2,7 @@
 from ..facts import Program, Inconclusive, op_place
 from ..flow import Ev, walk, resolve_upvars, show, strip
 from ..gate import comparisons, switch_on, edge_dominates
-from ..util import calls, field_stores, try_continue_block, ok_return_blocks, must_pass
+from ..util import sites_via_helpers, private_wrappers, calls, field_stores, try_continue_block, ok_return_blocks, must_pass
 from . import c16
 
 WTP = "sierradb::writer_thread_pool::"
@@ -31,8 +31,8 @@ def run(chk, facts_dir, tier):
     hw = prog.body(WS + "handle_write")
     chk.analysed(hw.path)
     ev = Ev(prog, hw)
-    ae = calls(hw, BSW + "append_event")
-    ac = calls(hw, BSW + "append_commit")
+    ae = sites_via_helpers(prog, hw, BSW + "append_event")
+    ac = sites_via_helpers(prog, hw, BSW + "append_commit")
     # R2.2
     late_bookkeeping(chk, prog, hw, ev, ae, ac, "R2.2")
     c16.check_sequence_cache(chk, prog, "R2.2")
